@@ -115,6 +115,23 @@ def resolve1Fuel (strict : Bool) (g : Graph) : Nat → List Nat → Obj → Exce
 def resolve1 (strict : Bool) (g : Graph) (x : Obj) : Except Err Obj :=
   resolve1Fuel strict g (g.length + 1) [] x
 
+/-- Number of `getobj` calls (`PDFObjRef.resolve`) the loop of `resolve1` makes: one per reference followed
+(the call that ends in PDFObjectNotFound included), none for a reference the guard rejects.  Same recursion as
+`resolve1Fuel`; measured on the implementation by the harness (`calls` op). -/
+def resolve1CallsFuel (g : Graph) : Nat → List Nat → Obj → Nat
+  | fuel + 1, seen, .ref n =>
+    if Gen.Lenient.resolve1Guard && seen.contains n then 0
+    else
+      match g.lookup n with
+      | none => 1
+      | some y => 1 + resolve1CallsFuel g fuel (n :: seen) y
+  | _, _, _ => 0
+
+def resolve1Calls (g : Graph) (x : Obj) : Nat := resolve1CallsFuel g (g.length + 1) [] x
+
+/-- The distinct object numbers of a graph. -/
+def objids (g : Graph) : List Nat := (g.map Prod.fst).eraseDups
+
 /-! ### typed accessors -/
 
 def intValue (strict : Bool) (g : Graph) (x : Obj) : Except Err Obj := do
@@ -286,6 +303,41 @@ def resolveAllBudget (g : Graph) (x : Obj) : Nat :=
 
 def resolveAll (strict : Bool) (g : Graph) (x : Obj) : Except Err Obj :=
   resolveAllFuel strict g (resolveAllBudget g x) [] x
+
+/-! ### getobj calls of resolve_all (round 6)
+
+Same recursion as `resolveAllFuel`; counts the `PDFObjRef.resolve` calls.  The guard cuts cycles by PATH, so an
+object shared along several paths is resolved once per path: the count is NOT bounded by the number of objects
+(`Props/C13.lean`, `C13_resolve_all_calls_cex`). -/
+
+mutual
+def resolveAllCallsFuel (g : Graph) : Nat → List Nat → Obj → Nat
+  | 0, _, _ => 0
+  | fuel + 1, path, .ref n =>
+    if Gen.Lenient.resolveAllGuard && path.contains n then 0
+    else
+      match g.lookup n with
+      | none => 1
+      | some y => 1 + resolveAllCallsFuel g fuel (n :: path) y
+  | fuel + 1, path, .arr xs => resolveAllCallsList g fuel path xs
+  | fuel + 1, path, .dict kvs => resolveAllCallsKvs g fuel path kvs
+  | _ + 1, _, _ => 0
+
+def resolveAllCallsList (g : Graph) : Nat → List Nat → List Obj → Nat
+  | _, _, [] => 0
+  | fuel, path, x :: xs => resolveAllCallsFuel g fuel path x + resolveAllCallsList g fuel path xs
+
+def resolveAllCallsKvs (g : Graph) : Nat → List Nat → List (String × Obj) → Nat
+  | _, _, [] => 0
+  | fuel, path, (_, x) :: xs => resolveAllCallsFuel g fuel path x + resolveAllCallsKvs g fuel path xs
+end
+
+def resolveAllCalls (g : Graph) (x : Obj) : Nat := resolveAllCallsFuel g (resolveAllBudget g x) [] x
+
+/-- `k: [k+1 0 R  k+1 0 R]` for k = m+1 … m+n (object m+n+1 is missing): every object is shared by two paths. -/
+def diamond : Nat → Nat → Graph
+  | 0, _ => []
+  | n + 1, m => (m + 1, .arr [.ref (m + 2), .ref (m + 2)]) :: diamond n (m + 1)
 
 /-! ### page-tree walk -/
 
